@@ -103,6 +103,7 @@ const (
 	maxPushesPerRun       = 4 // documented push rate limit: burst 10 per /24
 	maxTriggerCreation    = 45 // a whole connection (handshake + identify) is 20-35 I/O calls on the observer's socket
 	maxTriggerDuringPhase = 20 // a push is 8-15
+	maxTriggerPeerstore   = 10 // consumeMessage makes 8 of the counted peerstore calls
 )
 
 var dbgReasons = os.Getenv("C13_DEBUG") != ""
@@ -154,21 +155,26 @@ const (
 )
 
 type trigPlan struct {
-	io       bool // false: start at once
+	io       bool // start when the observer's raw socket of conn reaches an I/O call index
+	ps       bool // start when the observer's identify makes its j-th peerstore call about byz (see slowPS)
 	conn     int
-	creation bool // count I/O calls from the creation of the raw connection (else from the start of the action phase)
+	creation bool // count from the creation of the raw connection / from the start (else from the start of the action phase)
 	j        int
+	hold     int // ps only: scheduler yields the peerstore call that fires the trigger is held back (a pause at a chosen point of consumeMessage / Disconnected)
 }
 
 func (t trigPlan) String() string {
-	if !t.io {
-		return "at once"
-	}
 	base := "since action phase"
 	if t.creation {
 		base = "since creation"
 	}
-	return fmt.Sprintf("at I/O call %d (%s) of observer's socket of conn %d", t.j, base, t.conn)
+	switch {
+	case t.io:
+		return fmt.Sprintf("at I/O call %d (%s) of observer's socket of conn %d", t.j, base, t.conn)
+	case t.ps:
+		return fmt.Sprintf("at the observer's peerstore call %d about byz (%s), holding that call for %d yields", t.j, base, t.hold)
+	}
+	return "at once"
 }
 
 type actPlan struct {
@@ -199,6 +205,10 @@ type plan struct {
 	link      simnet.LinkMode
 	latency   bool
 	bigProtos bool // observer's peerstore accepts > 128 protocols
+	rsaByz    bool // byz's identity is an RSA key: its peer ID does not embed the public key
+	wipe      bool // rsaByz only: the application forgets byz (Peerstore.RemovePeer) before the action phase, so the
+	//              observer holds NO key for byz while identify messages carrying keys arrive
+	slow      int  // scheduler yields the observer's peerstore spends in every call about byz ("slow peerstore")
 	byzIP     string
 	pre       int // 0 nothing, 1 byz listen addr permanent, 2 byz listen addr + one more with TempAddrTTL
 	conns     []connPlan
@@ -231,9 +241,12 @@ func drawPlan(g simrt.Gen) (*plan, *world) {
 	p.link = []simnet.LinkMode{simnet.Whole, simnet.Fragment}[g.Weighted(2, 1)]
 	p.latency = g.Chance(1, 3)
 	p.bigProtos = g.Bool()
+	p.slow = []int{0, 10, 40, 150}[g.Weighted(3, 2, 2, 1)]
 	p.byzIP = []string{"10.0.1.2", "44.1.1.2"}[g.Weighted(3, 1)]
 	p.pre = g.Weighted(2, 2, 1)
-	w := newWorld(p.byzIP)
+	p.rsaByz = g.Chance(1, 5)
+	p.wipe = p.rsaByz && g.Bool()
+	w := newWorld(p.byzIP, p.rsaByz)
 	midx := 0
 	nconn := 1 + g.Weighted(3, 3, 2)
 	for i := 0; i < nconn; i++ {
@@ -248,7 +261,7 @@ func drawPlan(g simrt.Gen) (*plan, *world) {
 		c.gap = g.Weighted(2, 3, 1)
 		p.conns = append(p.conns, c)
 	}
-	p.overlap = g.Chance(1, 3)
+	p.overlap = g.Chance(1, 3) && !p.wipe
 	nact := g.Weighted(1, 3, 4, 3, 2)
 	pushes, lastPushConn := 0, -1
 	for i := 0; i < nact; i++ {
@@ -264,7 +277,13 @@ func drawPlan(g simrt.Gen) (*plan, *world) {
 			lastPushConn = a.conn
 			a.send = drawSend(g, w, &midx, true)
 		}
-		if g.Weighted(1, 3) == 1 {
+		switch g.Weighted(2, 4, 3) {
+		case 2:
+			a.trig.ps = true
+			a.trig.creation = a.kind != actPush && lastPushConn < 0 && g.Chance(1, 2)
+			a.trig.j = 1 + g.Int(maxTriggerPeerstore)
+			a.trig.hold = []int{0, 400, 1200}[g.Weighted(1, 2, 1)]
+		case 1:
 			a.trig.io = true
 			a.trig.conn = g.Int(nconn)
 			if a.kind != actPush && lastPushConn >= 0 && !g.Chance(1, 3) {
@@ -350,6 +369,7 @@ type sendRec struct {
 
 type trigger struct {
 	at    int
+	hold  int
 	fire  func()
 	done  bool
 	fired bool
@@ -373,6 +393,11 @@ type exec struct {
 	events    []evRec
 	sends     []*sendRec
 	raws      []*rawPair
+	ps        peerstore.Peerstore // the observer's real pstoremem (harness reads go here, not through slowPS)
+	psArmed   bool
+	psCalls   int
+	psTrig    []*trigger
+	psLog     []psCall
 	pending   int
 	muxFull   *msmux.MultistreamMuxer[protocol.ID]
 	muxNoID   *msmux.MultistreamMuxer[protocol.ID]
@@ -390,6 +415,81 @@ func settle(d time.Duration) {
 	simrt.WaitIdle()
 	simrt.TimeSleep(d)
 	simrt.WaitIdle()
+}
+
+// ---- the observer's peerstore: real pstoremem behind a pass-through that can be slow -----------------------
+//
+// slowPS delegates everything to the real memory peerstore. For calls about the byzantine peer it (a) counts them,
+// so that a close can be positioned INSIDE consumeMessage / Disconnected, (b) spends a drawn number of scheduler
+// yields first, which widens the windows between identify's peerstore calls the way a slow (datastore-backed)
+// peerstore would, and (c) logs them for the "disconnect during consumeMessage" probe. It changes no result.
+
+type psCall struct {
+	op    string
+	stamp uint64
+}
+
+type slowPS struct {
+	peerstore.Peerstore
+	cab peerstore.CertifiedAddrBook
+	x   *exec
+}
+
+func (s *slowPS) hook(op string, p peer.ID) {
+	x := s.x
+	if p != x.w.byz.id || !x.psArmed {
+		return
+	}
+	x.psCalls++
+	if len(x.psLog) < 4000 {
+		x.psLog = append(x.psLog, psCall{op, simrt.Stamp()})
+	}
+	hold := 0
+	for _, tr := range x.psTrig {
+		if !tr.done && x.psCalls >= tr.at {
+			tr.done, tr.fired = true, true
+			tr.fire()
+			if tr.hold > hold {
+				hold = tr.hold
+			}
+		}
+	}
+	for i := 0; i < x.pl.slow+hold; i++ {
+		simrt.Yield("c13-slow-peerstore")
+	}
+}
+
+func (s *slowPS) ConsumePeerRecord(e *record.Envelope, ttl time.Duration) (bool, error) {
+	return s.cab.ConsumePeerRecord(e, ttl)
+}
+func (s *slowPS) GetPeerRecord(p peer.ID) *record.Envelope { return s.cab.GetPeerRecord(p) }
+func (s *slowPS) AddAddrs(p peer.ID, a []ma.Multiaddr, ttl time.Duration) {
+	s.hook("AddAddrs", p)
+	s.Peerstore.AddAddrs(p, a, ttl)
+}
+func (s *slowPS) UpdateAddrs(p peer.ID, o, n time.Duration) {
+	s.hook("UpdateAddrs", p)
+	s.Peerstore.UpdateAddrs(p, o, n)
+}
+func (s *slowPS) Addrs(p peer.ID) []ma.Multiaddr {
+	s.hook("Addrs", p)
+	return s.Peerstore.Addrs(p)
+}
+func (s *slowPS) GetProtocols(p peer.ID) ([]protocol.ID, error) {
+	s.hook("GetProtocols", p)
+	return s.Peerstore.GetProtocols(p)
+}
+func (s *slowPS) SetProtocols(p peer.ID, pr ...protocol.ID) error {
+	s.hook("SetProtocols", p)
+	return s.Peerstore.SetProtocols(p, pr...)
+}
+func (s *slowPS) Put(p peer.ID, k string, v any) error {
+	s.hook("Put:"+k, p)
+	return s.Peerstore.Put(p, k, v)
+}
+func (s *slowPS) AddPubKey(p peer.ID, k crypto.PubKey) error {
+	s.hook("AddPubKey", p)
+	return s.Peerstore.AddPubKey(p, k)
 }
 
 // ---- byzantine behaviour ------------------------------------------------------------------
@@ -675,7 +775,7 @@ func run(t *testing.T, tape *simrt.Tape) *common.Outcome {
 	o := &common.Outcome{}
 	pl, w := drawPlan(g)
 	x := &exec{o: o, w: w, pl: pl, completed: map[string]int{}}
-	o.Logf("security=%s link=%d latency=%v bigProtos=%v byzIP=%s pre=%d overlap=%v longAdvance=%v trim=%v finalByObserver=%v", pl.sec, pl.link, pl.latency, pl.bigProtos, pl.byzIP, pl.pre, pl.overlap, pl.longAdv, pl.trim, pl.finalObs)
+	o.Logf("security=%s link=%d latency=%v bigProtos=%v slowPeerstore=%d rsaByz=%v wipe=%v byzIP=%s pre=%d overlap=%v longAdvance=%v trim=%v finalByObserver=%v", pl.sec, pl.link, pl.latency, pl.bigProtos, pl.slow, pl.rsaByz, pl.wipe, pl.byzIP, pl.pre, pl.overlap, pl.longAdv, pl.trim, pl.finalObs)
 	for i, c := range pl.conns {
 		dir := "byz dials"
 		if c.outbound {
@@ -756,17 +856,19 @@ func (x *exec) main(tape *simrt.Tape) {
 	})
 
 	// ---- observer
-	var ops peerstore.Peerstore
+	var popts []pstoremem.Option
 	if pl.bigProtos {
-		var err error
-		ops, err = pstoremem.NewPeerstore(pstoremem.WithMaxProtocols(1 << 20))
-		if err != nil {
-			o.Trouble = err.Error()
-			return
-		}
-		defer ops.Close()
+		popts = append(popts, pstoremem.WithMaxProtocols(1<<20))
 	}
-	x.O = x.node(w.obs, 4001, true, observerAgent, ops)
+	realPS, err := pstoremem.NewPeerstore(popts...)
+	if err != nil {
+		o.Trouble = err.Error()
+		return
+	}
+	defer realPS.Close()
+	x.ps = realPS
+	cab, _ := peerstore.GetCertifiedAddrBook(realPS)
+	x.O = x.node(w.obs, 4001, true, observerAgent, &slowPS{Peerstore: realPS, cab: cab, x: x})
 	if x.O == nil {
 		return
 	}
@@ -781,7 +883,8 @@ func (x *exec) main(tape *simrt.Tape) {
 	defer closeO()
 	ids := O.Host.IDService()
 
-	sub, err := O.Bus.Subscribe([]any{new(event.EvtPeerIdentificationCompleted), new(event.EvtPeerIdentificationFailed)}, eventbus.BufSize(512))
+	var sub event.Subscription
+	sub, err = O.Bus.Subscribe([]any{new(event.EvtPeerIdentificationCompleted), new(event.EvtPeerIdentificationFailed)}, eventbus.BufSize(512))
 	if err != nil {
 		o.Trouble = "subscribe: " + err.Error()
 		return
@@ -886,11 +989,11 @@ func (x *exec) main(tape *simrt.Tape) {
 
 	// ---- what the observer knows beforehand
 	x.preAll, x.prePerm, x.preShort = map[string]bool{}, map[string]bool{}, map[string]bool{}
-	O.PS.AddAddrs(w.h3.id, []ma.Multiaddr{w.h3.addr}, peerstore.PermanentAddrTTL)
-	O.PS.SetProtocols(w.h3.id, "/h3/1")
-	O.PS.Put(w.h3.id, "AgentVersion", "honest/3")
-	O.PS.AddPubKey(w.h3.id, w.h3.key.GetPublic())
-	if cab, ok := peerstore.GetCertifiedAddrBook(O.PS); ok {
+	x.ps.AddAddrs(w.h3.id, []ma.Multiaddr{w.h3.addr}, peerstore.PermanentAddrTTL)
+	x.ps.SetProtocols(w.h3.id, "/h3/1")
+	x.ps.Put(w.h3.id, "AgentVersion", "honest/3")
+	x.ps.AddPubKey(w.h3.id, w.h3.key.GetPublic())
+	if cab, ok := peerstore.GetCertifiedAddrBook(x.ps); ok {
 		env, _, err := record.ConsumeEnvelope(w.honestRecs["H3"], peer.PeerRecordEnvelopeDomain)
 		if err == nil {
 			cab.ConsumePeerRecord(env, peerstore.PermanentAddrTTL)
@@ -898,12 +1001,12 @@ func (x *exec) main(tape *simrt.Tape) {
 	}
 	switch pl.pre {
 	case 1:
-		O.PS.AddAddrs(w.byz.id, []ma.Multiaddr{w.byz.addr}, peerstore.PermanentAddrTTL)
+		x.ps.AddAddrs(w.byz.id, []ma.Multiaddr{w.byz.addr}, peerstore.PermanentAddrTTL)
 		x.prePerm[w.byz.addr.String()] = true
 	case 2:
 		extra := tcpAddr(w.byz.ip, 5999)
-		O.PS.AddAddrs(w.byz.id, []ma.Multiaddr{w.byz.addr}, peerstore.PermanentAddrTTL)
-		O.PS.AddAddrs(w.byz.id, []ma.Multiaddr{extra}, peerstore.TempAddrTTL)
+		x.ps.AddAddrs(w.byz.id, []ma.Multiaddr{w.byz.addr}, peerstore.PermanentAddrTTL)
+		x.ps.AddAddrs(w.byz.id, []ma.Multiaddr{extra}, peerstore.TempAddrTTL)
 		x.prePerm[w.byz.addr.String()] = true
 		x.preShort[extra.String()] = true
 	}
@@ -920,14 +1023,22 @@ func (x *exec) main(tape *simrt.Tape) {
 	bystanders := []*ident{w.h1, w.h2, w.h3, w.u}
 	before := map[string]peerSnap{}
 	for _, id := range bystanders {
-		before[id.name] = snapPeer(O.PS, id.id)
+		before[id.name] = snapPeer(x.ps, id.id)
 	}
-	selfBefore := snapPeer(O.PS, w.obs.id)
-	peersBefore := peerSet(w, O.PS)
+	selfBefore := snapPeer(x.ps, w.obs.id)
+	peersBefore := peerSet(w, x.ps)
 	for _, name := range []string{"H1", "H2"} {
 		if s := before[name]; len(s.addrs) == 0 || len(s.protos) == 0 || !strings.HasPrefix(s.agent, honestAgentPrefix) {
 			o.Trouble = fmt.Sprintf("honest peer %s not identified before the run: %v", name, s)
 			return
+		}
+	}
+
+	x.psArmed = true
+	for k, a := range pl.acts {
+		if a.trig.ps && a.trig.creation {
+			k, a := k, a
+			x.psTrig = append(x.psTrig, &trigger{at: a.trig.j, hold: a.trig.hold, fire: func() { x.startAction(k, a) }})
 		}
 	}
 
@@ -973,15 +1084,22 @@ func (x *exec) main(tape *simrt.Tape) {
 
 	// ---- action phase
 	x.phaseB = true
+	if pl.wipe {
+		// the application drops what it knows about byz (documented: everything except addresses), connections stay
+		x.ps.RemovePeer(w.byz.id)
+		x.logf("  Peerstore.RemovePeer(byz): keys=%v", snapPeer(x.ps, w.byz.id).inKeys)
+	}
 	for i, rp := range x.raws {
 		x.logf("  raw conn %d: observer's socket made %d I/O calls before the action phase", i, rp.obsEnd.Stats().Calls)
 	}
 	for k, a := range pl.acts {
 		k, a := k, a
 		switch {
-		case !a.trig.io:
+		case !a.trig.io && !a.trig.ps:
 			x.startAction(k, a)
-		case !a.trig.creation:
+		case a.trig.ps && !a.trig.creation:
+			x.psTrig = append(x.psTrig, &trigger{at: x.psCalls + a.trig.j, hold: a.trig.hold, fire: func() { x.startAction(k, a) }})
+		case a.trig.io && !a.trig.creation:
 			if a.trig.conn < len(x.raws) {
 				rp := x.raws[a.trig.conn]
 				rp.trig = append(rp.trig, &trigger{at: rp.obsEnd.Stats().Calls + a.trig.j, fire: func() { x.startAction(k, a) }})
@@ -997,6 +1115,9 @@ func (x *exec) main(tape *simrt.Tape) {
 			tr.done = true // triggers that were never reached stay unfired
 		}
 	}
+	for _, tr := range x.psTrig {
+		tr.done = true
+	}
 	if x.pending != 0 {
 		settle(quiesce)
 		if x.pending != 0 {
@@ -1009,12 +1130,12 @@ func (x *exec) main(tape *simrt.Tape) {
 	x.checkEvents()
 	x.checkByz("after-activity", false)
 	for _, id := range bystanders {
-		after := snapPeer(O.PS, id.id)
+		after := snapPeer(x.ps, id.id)
 		if b := before[id.name]; b.String() != after.String() {
 			o.Violate("C13/cross-talk/"+id.name, "observer's peerstore entry of %s changed during byzantine activity:\n before %v\n after  %v", id.name, b, after)
 		}
 	}
-	selfAfter := snapPeer(O.PS, w.obs.id)
+	selfAfter := snapPeer(x.ps, w.obs.id)
 	if selfAfter.key != selfBefore.key || selfAfter.inKeys != selfBefore.inKeys {
 		o.Violate("C13/cross-talk/self-key", "observer's own key entry changed: %v -> %v", selfBefore, selfAfter)
 	}
@@ -1023,7 +1144,7 @@ func (x *exec) main(tape *simrt.Tape) {
 			o.Violate("C13/cross-talk/self-addr", "observer's own entry gained %s, an address taken from a byzantine message", a)
 		}
 	}
-	if pa := peerSet(w, O.PS); pa != peersBefore && pa != addName(peersBefore, "BYZ") {
+	if pa := peerSet(w, x.ps); pa != peersBefore && pa != addName(peersBefore, "BYZ") {
 		o.Violate("C13/cross-talk/peer-set", "peers known to the observer: before %s, after %s", peersBefore, pa)
 	}
 	for _, oc := range x.obsConns {
@@ -1052,7 +1173,7 @@ func (x *exec) main(tape *simrt.Tape) {
 		adv = 2 * time.Hour
 	}
 	if open > 0 {
-		s1 := snapPeer(O.PS, w.byz.id)
+		s1 := snapPeer(x.ps, w.byz.id)
 		if pl.trim && firstKept {
 			// non-last disconnects at quiescence: nothing may be downgraded
 			for _, c := range x.conns[1:] {
@@ -1066,7 +1187,7 @@ func (x *exec) main(tape *simrt.Tape) {
 		settle(adv)
 		if firstKept && len(O.Swarm.ConnsToPeer(w.byz.id)) > 0 {
 			o.Probe("survive-checked")
-			s2 := snapPeer(O.PS, w.byz.id)
+			s2 := snapPeer(x.ps, w.byz.id)
 			for _, a := range s1.addrs {
 				if x.preShort[a] {
 					continue
@@ -1093,7 +1214,7 @@ func (x *exec) main(tape *simrt.Tape) {
 		o.Trouble = fmt.Sprintf("observer still lists %d connections to byz after the final closes", n)
 		return
 	}
-	final := snapPeer(O.PS, w.byz.id)
+	final := snapPeer(x.ps, w.byz.id)
 	for _, a := range final.addrs {
 		if !x.prePerm[a] {
 			o.Violate("C13/addr-kept-after-disconnect", "%v after the last connection closed Addrs(byz) still returns %s (%d addresses in total)", peerstore.RecentlyConnectedAddrTTL+2*time.Minute, a, len(final.addrs))
@@ -1101,7 +1222,7 @@ func (x *exec) main(tape *simrt.Tape) {
 		}
 	}
 	for _, id := range []*ident{w.h3, w.u} {
-		after := snapPeer(O.PS, id.id)
+		after := snapPeer(x.ps, id.id)
 		if b := before[id.name]; b.String() != after.String() {
 			o.Violate("C13/cross-talk/"+id.name, "observer's peerstore entry of %s changed by the end of the run:\n before %v\n after  %v", id.name, b, after)
 		}
@@ -1145,7 +1266,7 @@ func (x *exec) vouchedByAny(a string) bool {
 // checkByz applies the state oracles to the observer's entry of the byzantine peer.
 func (x *exec) checkByz(when string, afterQuiescentLastClose bool) {
 	o, w := x.o, x.w
-	ps := x.O.PS
+	ps := x.ps
 	s := snapPeer(ps, w.byz.id)
 	if s.inKeys {
 		if k := ps.PubKey(w.byz.id); k != nil {
@@ -1153,6 +1274,9 @@ func (x *exec) checkByz(when string, afterQuiescentLastClose bool) {
 				o.Violate("C13/pubkey-mismatch", "%s: the key stored for byz hashes to %s", when, w.name(id))
 			}
 		}
+	}
+	if x.pl.wipe && x.phaseB && s.inKeys && when == "after-activity" {
+		o.Probe("pubkey-stored-from-message")
 	}
 	if len(s.protos) > capProtocols {
 		o.Violate("C13/protocol-cap", "%s: %d protocols stored for byz (documented cap %d)", when, len(s.protos), capProtocols)
@@ -1370,6 +1494,29 @@ func (x *exec) summarise() {
 	}
 	if triggered > 0 {
 		o.Probe("io-positioned-action-fired")
+	}
+	for _, tr := range x.psTrig {
+		if tr.fired {
+			triggered++
+			o.Probe("peerstore-positioned-action-fired")
+		}
+	}
+	// a Disconnected notification of a byz connection delivered while consumeMessage was between its first
+	// (GetProtocols) and last (Put AgentVersion) peerstore call
+	var start uint64
+	for _, c := range x.psLog {
+		switch c.op {
+		case "GetProtocols":
+			start = c.stamp
+		case "Put:AgentVersion":
+			for _, oc := range x.obsConns {
+				if start != 0 && oc.c.RemotePeer() == byz && oc.disconnected > start && oc.disconnected < c.stamp {
+					o.Probe("disconnect-during-consumeMessage")
+					raced = true
+				}
+			}
+			start = 0
+		}
 	}
 	sort.Strings(sig)
 	o.Sig = fmt.Sprintf("%s|%d|%v|conns=%d|acts=%d/%d|trig=%d|%s", x.pl.sec, x.pl.link, x.pl.bigProtos, len(x.conns), x.fired, len(x.pl.acts), triggered, strings.Join(sig, ";"))
